@@ -109,6 +109,8 @@ pub struct Inner {
     pub fail_storm_left: (u32, u8),
     /// a scripted "not ready" answer was given since the flag was last cleared
     pub scripted_pending: bool,
+    /// the async transport announces gathering writes (is_write_vectored) and takes them
+    pub vectored: bool,
 }
 
 impl Inner {
@@ -288,6 +290,14 @@ impl AsyncWrite for World {
     fn poll_flush(self: Pin<&mut Self>, _cx: &mut Context<'_>) -> Poll<io::Result<()>> {
         Poll::Ready(Ok(()))
     }
+    fn is_write_vectored(&self) -> bool {
+        self.0.lock().unwrap().vectored
+    }
+    fn poll_write_vectored(self: Pin<&mut Self>, cx: &mut Context<'_>, bufs: &[io::IoSlice<'_>]) -> Poll<io::Result<usize>> {
+        // a gathering write is one offer of the concatenation: the transport may take any k bytes of it
+        let all: Vec<u8> = bufs.iter().flat_map(|b| b.iter().copied()).collect();
+        self.poll_write(cx, &all)
+    }
     fn poll_shutdown(self: Pin<&mut Self>, _cx: &mut Context<'_>) -> Poll<io::Result<()>> {
         Poll::Ready(Ok(()))
     }
@@ -365,6 +375,7 @@ pub fn run(inst: &Instance, hist: &[Act]) -> RunResult {
     let inner = Arc::new(Mutex::new(Inner {
         inbound: inst.inbound(),
         script_writes: inst.script_writes,
+        vectored: inst.vectored,
         ..Default::default()
     }));
     let r = match inst.imp {
